@@ -231,7 +231,7 @@ Proof.
   destruct (is_empty l2); [exact I|].
   destruct (existsb (N.eqb c_slash) l2).
   - match goal with |- pos_line (if ?b then _ else _) => destruct b end; [exact I | reflexivity].
-  - reflexivity.
+  - match goal with |- pos_line (if ?b then _ else _) => destruct b end; [exact I | reflexivity].
 Qed.
 
 Lemma weird_good : good_line weird_line.
@@ -286,15 +286,18 @@ Proof.
 Qed.
 
 Lemma plain_name_parts n : plain_name n = true ->
-  n <> [] /\ forallb ok_byte n = true /\ existsb (N.eqb c_slash) n = false /\ bytes_eqb n star2 = false.
+  n <> [] /\ forallb ok_byte n = true /\ existsb (N.eqb c_slash) n = false /\ bytes_eqb n star2 = false /\
+  bad_piece n = false.
 Proof.
   unfold plain_name. intros H.
   apply andb_true_iff in H as [H H4]. apply andb_true_iff in H as [H H3]. apply andb_true_iff in H as [H1 H2].
+  apply negb_true_iff in H4.
   repeat split.
   - destruct n; [discriminate | discriminate].
   - exact H2.
   - now apply negb_true_iff in H3.
-  - now apply negb_true_iff in H4.
+  - destruct (bytes_eqb n star2) eqn:E; [|reflexivity]. apply beq_spec in E. subst n. discriminate.
+  - unfold bad_piece. rewrite H4. reflexivity.
 Qed.
 
 Definition name_pat (dir : bool) (n : gname) : gpat :=
@@ -302,7 +305,7 @@ Definition name_pat (dir : bool) (n : gname) : gpat :=
 
 Lemma parse_file_line n : plain_name n = true -> parse_line (c_slash :: n) = LPat (name_pat false n).
 Proof.
-  intros Hp. destruct (plain_name_parts n Hp) as (Hne & Hok & Hns & Hss).
+  intros Hp. destruct (plain_name_parts n Hp) as (Hne & Hok & Hns & Hss & Hbad).
   unfold parse_line.
   change (N.eqb c_slash c_hash) with false. cbv iota.
   change (forallb ok_byte (c_slash :: n)) with (ok_byte c_slash && forallb ok_byte n).
@@ -313,13 +316,13 @@ Proof.
   change (existsb (N.eqb c_slash) (c_slash :: n)) with true. cbv iota.
   change (starts_with c_slash (c_slash :: n)) with true. cbv iota. cbn [tl].
   rewrite (split_slash_noslash n Hns). cbn [existsb map].
-  destruct n as [|b n']; [congruence|]. cbn [is_empty orb]. cbv iota.
+  rewrite Hbad. destruct n as [|b n']; [congruence|]. cbn [is_empty orb]. cbv iota.
   rewrite Hss. reflexivity.
 Qed.
 
 Lemma parse_dir_line n : plain_name n = true -> parse_line ([c_slash] ++ n ++ [c_slash]) = LPat (name_pat true n).
 Proof.
-  intros Hp. destruct (plain_name_parts n Hp) as (Hne & Hok & Hns & Hss).
+  intros Hp. destruct (plain_name_parts n Hp) as (Hne & Hok & Hns & Hss & Hbad).
   unfold parse_line. cbn [app].
   change (N.eqb c_slash c_hash) with false. cbv iota.
   change (forallb ok_byte (c_slash :: n ++ [c_slash])) with (ok_byte c_slash && forallb ok_byte (n ++ [c_slash])).
@@ -330,13 +333,13 @@ Proof.
   change (existsb (N.eqb c_slash) (c_slash :: n)) with true. cbv iota.
   change (starts_with c_slash (c_slash :: n)) with true. cbv iota. cbn [tl].
   rewrite (split_slash_noslash n Hns). cbn [existsb map].
-  destruct n as [|b n']; [congruence|]. cbn [is_empty orb]. cbv iota.
+  rewrite Hbad. destruct n as [|b n']; [congruence|]. cbn [is_empty orb]. cbv iota.
   rewrite Hss. reflexivity.
 Qed.
 
 Lemma plain_name_no_nl n : plain_name n = true -> has_nl n = false.
 Proof.
-  intros Hp. destruct (plain_name_parts n Hp) as (_ & Hok & _ & _).
+  intros Hp. destruct (plain_name_parts n Hp) as (_ & Hok & _ & _ & _).
   unfold has_nl. clear Hp. induction n as [|b r IH]; [reflexivity|].
   cbn [forallb] in Hok. apply andb_true_iff in Hok as [Hb Hr].
   cbn [existsb]. rewrite (IH Hr), orb_false_r.
